@@ -610,7 +610,18 @@ func TestRealTime_Grounding(t *testing.T) {
 				holds = true
 			}
 		}
-		conn, derr := rig.Dial(node)
+		// the node dials the way applications do: sometimes bare, sometimes with client
+		// state and application protocols of its own (several request chunks)
+		var dopts []nodeenrollment.Option
+		switch dials % 4 {
+		case 1:
+			dopts = []nodeenrollment.Option{nodeenrollment.WithState(vkit.UniqueStruct("n")), nodeenrollment.WithExtraAlpnProtos([]string{"app"})}
+		case 2:
+			dopts = []nodeenrollment.Option{nodeenrollment.WithState(vkit.UniqueStruct(strings.Repeat("state-", 60))), nodeenrollment.WithExtraAlpnProtos([]string{"app", "app2"})}
+		case 3:
+			dopts = []nodeenrollment.Option{nodeenrollment.WithExtraAlpnProtos([]string{"a", "b", "c"})}
+		}
+		conn, derr := rig.Dial(node, dopts...)
 		outs := rig.Sync()
 		dials++
 		if conn != nil {
